@@ -262,6 +262,11 @@ func (a *jwtAuthenticator) getCacheTTL(key *jose.JSONWebKey) time.Duration {
 		return 0
 	}
 
+	// a key with a certificate, which is about to expire (or is already expired) is not cached at all
+	if len(key.Certificates) != 0 && key.Certificates[0].NotAfter.Unix()-time.Now().Unix()-timeLeeway <= 0 {
+		return 0
+	}
+
 	// we cache by default using the settings in the certificate (if available)
 	// or based on ttl. Latter overwrites the settings in the certificate
 	// if it is shorter than the ttl of the certificate
